@@ -43,6 +43,8 @@ class LegacyPort:
             return "OK\r\n"
         if tok[0] == "err":
             return "!8 Err: fault injected %d\r\n" % tok[1]
+        if tok[0] == "blank":
+            return "\r\n"
         nm = self.name
         if nm == "qs":
             t = "%d,%d\r\n" % (tok[1], -tok[1])
@@ -68,12 +70,13 @@ class LegacyPort:
         elif p["kind"] == "cmd":
             items = [[p["d1"], ["ok", n]]]
         elif p["kind"] == "qnook":
-            items = [[p["d1"], ["data", n]]]
+            items = [[p["d1"], ["blank" if p.get("blank") else "data", n]]]
         else:
-            items = [[p["d1"], ["data", n]], [p["d2"], ["ok", n]]]
+            items = [[p["d1"], ["blank" if p.get("blank") else "data", n]], [p["d2"], ["ok", n]]]
         for e, tok in items:
             txt = self._text(tok)
-            self.texts[txt.strip()] = tok if tok[0] != "ok" else ["ok", 0]
+            if txt.strip():
+                self.texts[txt.strip()] = tok if tok[0] != "ok" else ["ok", 0]
             self.q.append([e, tok, txt])
         return len(data)
 
@@ -93,7 +96,7 @@ class LegacyPort:
             self.log.append({"ev": "r", "tok": ["empty"]})
             return b""
         _e, tok, txt = self.q.pop(0)
-        if tok[0] == "data":
+        if tok[0] in ("data", "blank"):
             self.data_out = True
         self.log.append({"ev": "r", "tok": tok})
         return txt.encode("ascii")
@@ -123,7 +126,7 @@ def run_script(mods, script, tid):
             text = "QS\r" if fn == "query" else "EM,0,0\r"
         name = text.split(",")[0].strip().lower()
         log.append({"ev": "call", "first": k == 0, "fn": fn, "name": name, "kind": kind, "d1": plan["d1"], "d2": plan["d2"],
-                    "fault": plan["fault"], "text": text})
+                    "fault": plan["fault"], "text": text, "blank": bool(plan.get("blank"))})
         port.arm(plan, n, name)
         f = getattr(ebb_serial, fn)
         try:
@@ -138,7 +141,7 @@ def run_script(mods, script, tid):
             elif isinstance(val, str):
                 s = val.strip()
                 cls = "str"
-                tok = ["empty"] if s == "" else port.texts.get(s, ["other", 0])
+                tok = ["empty"] if val == "" else (["blank", n] if s == "" else port.texts.get(s, ["other", 0]))
             elif isinstance(val, bytes):
                 cls, tok = "bytes", ["other", 0]
             else:
@@ -220,7 +223,7 @@ def run(ctx):
     scripts = []
     for st in vlib.read_dump(dump + ".dump", only={"hist", "pc"}, prefilter='pc = "idle"'):
         if len(st["hist"]) == 2:
-            scripts.append([{"kind": p["kind"], "d1": DELAY_MAP[p["d1"]], "d2": DELAY_MAP[p["d2"]], "fault": p["fault"]} for p in st["hist"]])
+            scripts.append([{"kind": p["kind"], "d1": DELAY_MAP[p["d1"]], "d2": DELAY_MAP[p["d2"]], "fault": p["fault"], "blank": p["blank"]} for p in st["hist"]])
     os.remove(dump + ".dump")
     scripts.sort(key=lambda s: json.dumps(s, sort_keys=True))
     logs, nbad = judge_batch(ctx, "G", scripts, "g")
@@ -239,9 +242,10 @@ def run(ctx):
                 fault = rng.choice(["wraise", "r1raise", "r2raise", "errline", "silent"] + (["rNraise"] if kind == "qok" else []))
             d = lambda: rng.choice([0, 0, 0, 0, 1, 1, 2, 3, 7, 50, 99, 100, 100, 101, 130])  # noqa: E731
             if kind in ("noport", "notext"):
-                s.append({"kind": kind, "d1": 0, "d2": 0, "fault": "none"})
+                s.append({"kind": kind, "d1": 0, "d2": 0, "fault": "none", "blank": False})
             else:
-                s.append({"kind": kind, "d1": (rng.choice([1, 2, 5, 100]) if fault == "r2raise" else d()) if fault != "rNraise" else rng.choice([0, 1, 5]), "d2": d() if kind == "qok" else 0, "fault": fault})
+                s.append({"kind": kind, "d1": (rng.choice([1, 2, 5, 100]) if fault == "r2raise" else d()) if fault != "rNraise" else rng.choice([0, 1, 5]), "d2": d() if kind == "qok" else 0, "fault": fault,
+                          "blank": fault == "none" and kind in ("qok", "qnook") and rng.random() < 0.12})
         vs.append(s)
     logs, nbad = judge_batch(ctx, "V", vs, "v")
     ctx.sample({"mode": "V", "script": vs[0], "log_head": logs[0][:8]})
